@@ -255,7 +255,11 @@ class _Marshaller:
 
     def dump_unicode(self, x):
         self._write(TYPE_UNICODE)
-        if not PYTHON3 and self.python_version < (3, 0):
+        if PYTHON3:
+            # TYPE_UNICODE holds UTF-8 bytes preceded by their count (not
+            # the number of characters); CPython allows lone surrogates.
+            s = x.encode("utf-8", "surrogatepass")
+        elif self.python_version < (3, 0):
             s = x.encode("utf8")
         else:
             s = x
@@ -592,7 +596,7 @@ class _Unmarshaller:
     def load_unicode(self):
         n = self.r_long()
         s = self._read(n)
-        ret = s.decode("utf8")
+        ret = s.decode("utf8", "surrogatepass") if PYTHON3 else s.decode("utf8")
         return ret
 
     dispatch[TYPE_UNICODE] = load_unicode
@@ -921,7 +925,7 @@ class _FastUnmarshaller:
     def load_unicode(self):
         n = _r_long(self)
         s = _read(self, n)
-        ret = s.decode("utf8")
+        ret = s.decode("utf8", "surrogatepass") if PYTHON3 else s.decode("utf8")
         return ret
 
     dispatch[TYPE_UNICODE] = load_unicode
